@@ -78,9 +78,9 @@ def fmt_tok(op, i, t):
 
 
 class Runner:
-    def __init__(self, case: Case):
+    def __init__(self, case: Case, env=None):
         self.case = case
-        self.env = Environment()
+        self.env = Environment() if env is None else env
         self.lines = []
         self.notes = []          # oracle-only records (never compared with the model)
         self.slots = {}
